@@ -36,7 +36,7 @@ class C14(BaseCheck):
   REQUIRED_ANCHORS = ANCHORS
   REQUIRED_CLASSES = ('outcome:value', 'outcome:declared-exc', 'outcome:declared-exc-not-first', 'outcome:app-exc', 'outcome:void',
                       'iface:hello', 'iface:verif', 'iface:ext', 'iface:leaf', 'chunk:1cut', 'chunk:2cut', 'chunk:kcut',
-                      'text:nonascii', 'text:empty', 'concurrent', 'two-services', 'short-sends', 'alternating-outcomes', 'call:positional-and-keyword', 'call:keyword-only',
+                      'text:nonascii', 'text:empty', 'concurrent', 'two-services', 'short-sends', 'alternating-outcomes', 'call:positional-and-keyword', 'call:keyword-only', 'reply:slow-or-pausing',
                       'text:over-a-mebibyte')
   ASSUMPTIONS = ('interfaces: the repository\'s hello.Hello plus a hand-written module in the shape the '
                  'Thrift compiler emits (py:dynamic); no Thrift compiler is available offline',)
@@ -262,6 +262,20 @@ class C14(BaseCheck):
         done += 1
       elif len(out.violations) > 3:
         break
+    if good and n > 1 and idx % 6 == 2:
+      # a slow server: the reply starts many seconds after the request, or pauses for seconds in the
+      # middle of the frame - all well inside the call's 30 s timeout
+      classes.add('reply:slow-or-pausing')
+      plan['chunks'] = None
+      plan['delay'] = rng.choice([5.5, 9.0, 20.0])
+      if judge(call_once(), 'none, reply after %.1f s' % plan['delay']):
+        done += 1
+      plan['delay'] = 0.001
+      cut_ = rng.randint(1, n - 1)
+      plan['chunks'] = [(cut_, rng.choice([6.0, 12.0])), (n - cut_, 0.0)]
+      if judge(call_once(), '1cut(%d,) with a pause of %.0f s' % (cut_, plan['chunks'][0][1])):
+        done += 1
+      plan['chunks'] = None
     # ---- concurrent calls on a fresh client (no idle pooled connection): every request the
     # library decodes must be one of the calls made, every caller gets the reply to its own
     if good and expected[0] == 'value' and idx % 3 == 0:
